@@ -224,7 +224,7 @@ def m_copy_from_slice(I, fr, callee, m, args):
     return UNIT
 
 
-@model(r'^(?:core|std)::slice::<impl \[u8\]>::eq_ignore_ascii_case$')
+@model(r'^(?:core|std)::slice::(?:ascii::)?<impl \[u8\]>::eq_ignore_ascii_case$')
 def m_eq_ignore_ascii_case(I, fr, callee, m, args):
     a, b = as_slice(I, args[0]), as_slice(I, args[1])
     if not I.ctx.branch(I.binop('Eq', a.len, b.len)):
@@ -676,3 +676,4 @@ def eq_dispatch_deep(I, a, b):
 
 from . import models_coll   # noqa: E402,F401  (collections, iterators, io, fmt, hash)
 from . import models_io   # noqa
+from . import models_fmt  # noqa
